@@ -119,6 +119,7 @@ def gen():
             w("    lemma_put(acc_%s_%d(acc, p), 0x%02Xu8);" % (name, k - 1, pid))
             w("    assert(acc_%s_%d(acc, p) =~= acc + enc_%s_upto_%d(p));" % (name, k, name, k))
         w("}")
+        w("#[verifier::opaque]")
         w("pub open spec fn enc_%s_body(p: %s) -> Seq<u8> { enc_%s_fields(p) + enc_ups(p.user_properties@) }" % (name, name, name))
         allf = [PROPS[q][2] for q in props]
         # trusted specs of the derived impls (A11; `@derived` checks the real type still derives them)
@@ -132,8 +133,8 @@ def gen():
         w("pub assume_specification [<%s as Default>::default]() -> (r: %s) ensures %s_empty(r), r == empty_%s();" % (name, name, name, name))
         oks = ["%s(p.%s)" % (OKFN[PROPS[q][1]], PROPS[q][2]) for q in props if PROPS[q][1] in OKFN]
         oks.append("ups_ok(p.user_properties@)")
-        oks.append("enc_%s_body(p).len() < 268435456" % name)
-        w("pub open spec fn %s_ok(p: %s) -> bool { %s }" % (name, name, " && ".join(oks)))
+        w("pub open spec fn %s_fields_ok(p: %s) -> bool { %s }" % (name, name, " && ".join(oks)))
+        w("pub open spec fn %s_ok(p: %s) -> bool { %s_fields_ok(p) && enc_%s_body(p).len() < 268435456 }" % (name, name, name, name))
     w("@endspec")
     w("")
     enc_out = out
@@ -197,6 +198,19 @@ def gen():
             w("    ensures p5_%s_loop(s, plen, len, acc, used, pt) == (match %s { PR::Inc => PR::<%s, ErrorV5>::Inc, PR::Err(e) => PR::<%s, ErrorV5>::Err(e)," % (name, stepc, name, name))
             w("        PR::Ok(v, n) => p5_%s_loop(s.skip(1 + n as int), plen, %s, %s, used + 1 + n, pt) })" % (name, lenexpr, upd))
             w("{ reveal(p5_%s_loop); }" % name)
+        for q in props:
+            pid, ty, f = PROPS[q]
+            w("pub proof fn lemma_%s_len_%s(acc: %s, v: %s)" % (name, q, name, {"bool": "bool", "qos": "QoS", "u16": "u16", "u32": "u32", "str": "Arc<String>", "topic": "TopicName", "bin": "Bytes", "varint": "VarByteInt"}[ty]))
+            w("    requires acc.%s is None" % f)
+            w("    ensures enc_%s_body(%s { %s: Some(v), ..acc }).len() == enc_%s_body(acc).len() + prop_%s(0x%02Xu8, Some(v)).len()" % (name, name, f, name, ty, pid))
+            w("{ reveal(enc_%s_body); }" % name)
+        w("pub proof fn lemma_%s_len_UserProperty(acc: %s, v: UserProperty)" % (name, name))
+        w("    ensures enc_%s_body(%s { user_properties: mk_vec(acc.user_properties@.push(v)), ..acc }).len() == enc_%s_body(acc).len() + enc_up(v).len()," % (name, name, name))
+        w("            ups_ok(acc.user_properties@) && sbytes(v.name@).len() <= 65535 && sbytes(v.value@).len() <= 65535 ==> ups_ok(acc.user_properties@.push(v))")
+        w("{ reveal(enc_%s_body); broadcast use group_ext; assert(acc.user_properties@.push(v).drop_last() =~= acc.user_properties@); }" % name)
+        w("pub proof fn lemma_%s_len_empty()" % name)
+        w("    ensures enc_%s_body(empty_%s()).len() == 0, %s_fields_ok(empty_%s())" % (name, name, name, name))
+        w("{ reveal(enc_%s_body); broadcast use group_ext; }" % name)
         w("pub open spec fn p5_%s(s: Seq<u8>, pt: PacketType) -> PR<%s, ErrorV5> {" % (name, name))
         w("    match p_varint(s) { PR::Inc => PR::Inc, PR::Err(e) => PR::Err(ErrorV5::Common(e)),")
         w("        PR::Ok(plen, n0) => p5_%s_loop(s.skip(n0 as int), plen as nat, 0, empty_%s(), n0, pt) }" % (name, name))
@@ -212,15 +226,17 @@ def gen():
         w("@ensures")
         pt = "PacketType::Connect" if is_will else "packet_type"
         w("  #refines: rd_post5(p5_%s(old(reader).stream(), %s), r, *old(reader), *final(reader))" % (name, pt))
+        w("  #valid: r matches Ok(v) ==> v.valid() && (p_varint(old(reader).stream()) matches PR::Ok(plen, _n0) && enc_%s_body(v).len() == plen)" % name)
         w("@entry")
         w("  let ghost s0 = reader.stream();")
         w("@before `let mut len = 0 ;`")
         w("  let ghost mut used: nat = _bytes as nat;")
-        w("  proof { assert(properties.user_properties@ =~= Seq::<UserProperty>::empty()); assert(properties == empty_%s()); }" % name)
+        w("  proof { assert(properties.user_properties@ =~= Seq::<UserProperty>::empty()); assert(properties == empty_%s()); lemma_%s_len_empty(); }" % (name, name))
         w("@loop 1")
         w("  @invariant")
         w("    #frame: reader.end_kind() == old(reader).end_kind() && s0 == old(reader).stream() && used <= s0.len() && reader.stream() == s0.skip(used as int) && p_varint(s0) == PR::<u32, Error>::Ok(property_len, _bytes as nat)")
         w("    #refines: p5_%s(s0, %s) == p5_%s_loop(reader.stream(), property_len as nat, len as nat, properties, used, %s)" % (name, pt, name, pt))
+        w("    #acct: %s_fields_ok(properties) && len as nat == enc_%s_body(properties).len() && property_len < 268435456" % (name, name))
         w("  @decreases (if property_len as usize > len { property_len as usize - len } else { 0 })")
         w("  @top")
         w("    let ghost sc = reader.stream();")
@@ -238,6 +254,20 @@ def gen():
         for q in props + ["UserProperty"]:
             w("@after `PropertyId :: %s => {`" % q)
             w("  proof { lemma_%s_arm_%s(sc, property_len as nat, len0, p0, used, %s); }" % (name, q, pt))
+        for q in props:
+            pid, ty, f = PROPS[q]
+            if ty in ("str", "topic", "bin"):
+                pat = "if let Some ( value ) = properties . %s . as_ref ( ) {" % f
+            elif ty == "varint":
+                pat = "if let Some ( value ) = properties . %s {" % f
+            else:
+                pat = "if properties . %s . is_some ( ) {" % f
+            extra = " lemma_vlen_enc(properties.%s->Some_0.0 as nat);" % f if ty == "varint" else ""
+            occ = 2 if ty == "qos" else 1   # the inline arms (MaximumQoS, SubscriptionIdentifier) test the field once more for the duplicate check
+            w("@before %d `%s`" % (occ, pat))
+            w("  proof { lemma_%s_len_%s(p0, properties.%s->Some_0);%s }" % (name, q, f, extra))
+        w("@before `let last = properties . user_properties . last ( )`")
+        w("  proof { lemma_%s_len_UserProperty(p0, user_property); }" % name)
         w("@before `if property_len as usize != len {`")
         w("  proof { lemma_%s_head(reader.stream(), property_len as nat, len as nat, properties, used, %s); }" % (name, pt))
         w("@end")
@@ -260,7 +290,7 @@ def gen():
         w("@entry")
         w("  let ghost w0 = writer.written();")
         w("  let ghost ups = self.user_properties@;")
-        w("  proof { lemma_ups_len(ups); }")
+        w("  proof { reveal(enc_%s_body); lemma_ups_len(ups); }" % name)
         w("@loop 1")
         w("  @invariant")
         w("    #frame: idx_1 <= ups.len() && ups == self.user_properties@ && %s_ok(*self) && w0 == old(writer).written() && writer.written() == w0" % name)
@@ -310,7 +340,7 @@ def gen():
         w("@attr #[verifier::spinoff_prover]")
         w("@entry")
         w("  let ghost ups = self.user_properties@;")
-        w("  proof { lemma_ups_len(ups); }")
+        w("  proof { reveal(enc_%s_body); lemma_ups_len(ups); }" % name)
         w("@loop 1")
         w("  @invariant")
         w("    #frame: idx_1 <= ups.len() && ups == self.user_properties@ && %s_ok(*self) && len == 0" % name)
